@@ -381,6 +381,7 @@ var c14Regexes = []string{
 	"(a)", "(ab)", "(a)b", "(?:a)b", "(?:ab)+", "(ab)+", "(a)+", "(?<n>a)b", "(a)(b)", "((a)b)", "(a(b))", "((a)(b))", "(?:(a)b)c",
 	"a|b", "a|b|c", "(a|b)", "(a|b)c", "x(a|b)", "(ab)|(cd)", "(a)|(b)", "(?:a|b)+", "(a|b)+c", "(a+|b)c", "(?:a|(b))c", "(a|(?:bc))d", "(?:(?:ab)|c)+", "((?:a|b)c)+",
 	"^a", "a$", "^a$", "^.", ".$", "^ab", "a+$", "^(a|b)", "(a|b)$",
+	"(a+?)b", "(?:a+?)b", "(a??)b", "(a{1,2}?)b", "x(\\d*?)y", "(?:ab+?)+c", "(a*?)b", "((a+?)b)+", "(a|b+?)c", "(a+?|b)c", "(?<n>a+?)b\\k<n>",
 	"(a)\\1", "(a|b)\\1", "(.)\\1", "(ab)\\1", "(a)(b)\\2\\1", "((a)b)\\1", "((a)b)\\2", "(a(b))\\2", "(?<n>a)\\k<n>", "(?<n>.)b\\k<n>", "(a+)b\\1", "(.)(.)\\2\\1", "(?:(a)|b)\\1c",
 }
 
